@@ -309,8 +309,20 @@ pub fn forge(p: &Plan, rng: &mut Rng) -> Option<Vec<u8>> {
                 "INT2" => (*rng.pick(&[0i16, 1, -1, i16::MAX, i16::MIN, 255, 256])).to_be_bytes().to_vec(),
                 "INT4" | "OID" => (*rng.pick(&[0i32, 1, -1, i32::MAX, i32::MIN, 65535, 65536])).to_be_bytes().to_vec(),
                 "INT8" => (*rng.pick(&[0i64, 1, -1, i64::MAX, i64::MIN, 1 << 32])).to_be_bytes().to_vec(),
-                "FLOAT4" => (*rng.pick(&[0f32, -0.0, 1.0, -1.0, 0.5, f32::MAX, f32::MIN, f32::INFINITY, f32::NEG_INFINITY, f32::NAN, 1e20, 16777216.0, f32::MIN_POSITIVE])).to_be_bytes().to_vec(),
-                "FLOAT8" => (*rng.pick(&[0f64, -0.0, 1.0, -1.0, 0.5, f64::MAX, f64::MIN, f64::INFINITY, f64::NEG_INFINITY, f64::NAN, 1e300, 9007199254740993.0, 1.8446744073709552e19, f64::MIN_POSITIVE])).to_be_bytes().to_vec(),
+                "FLOAT4" => {
+                    // fixed boundary values, or values around the type's capacity 2^BITS (the
+                    // range check / rounding / truncation boundary of the float conversion)
+                    let c = 2f32.powi(bits.min(127) as i32);
+                    let cap = [c - 0.5, c - 1.0, c, c + 0.5, c - 0.25, c * 2.0 - 0.5, -(c - 0.5), c - 1.5, 0.5, 1.5, 0.49999997, 255.5, 65535.5];
+                    let fixed = [0f32, -0.0, 1.0, -1.0, f32::MAX, f32::MIN, f32::INFINITY, f32::NEG_INFINITY, f32::NAN, 1e20, 16777216.0, f32::MIN_POSITIVE, f32::EPSILON];
+                    (if rng.chance(1, 2) { *rng.pick(&cap) } else { *rng.pick(&fixed) }).to_be_bytes().to_vec()
+                }
+                "FLOAT8" => {
+                    let c = 2f64.powi(bits.min(1023) as i32);
+                    let cap = [c - 0.5, c - 1.0, c, c + 0.5, c - 0.25, c * 2.0 - 0.5, -(c - 0.5), c - 1.5, 0.5, 1.5, 0.49999999999999994, 255.5, 65535.5, 4294967295.5, 4503599627370495.5];
+                    let fixed = [0f64, -0.0, 1.0, -1.0, f64::MAX, f64::MIN, f64::INFINITY, f64::NEG_INFINITY, f64::NAN, 1e300, 9007199254740993.0, 1.8446744073709552e19, f64::MIN_POSITIVE, f64::EPSILON];
+                    (if rng.chance(1, 2) { *rng.pick(&cap) } else { *rng.pick(&fixed) }).to_be_bytes().to_vec()
+                }
                 _ => {
                     let n = near_len(rng, nb).min(nb + 20);
                     payload(rng, n, true)
